@@ -6,7 +6,9 @@ import (
 	"io"
 	"log"
 	"net/url"
+	"os"
 	"strings"
+	"syscall"
 	"time"
 	"unsafe"
 
@@ -53,6 +55,9 @@ type c06leaf struct {
 	level  zapcore.Level
 	bws    *zapcore.BufferedWriteSyncer
 	faulty bool // the device fails: the action must still run, the content is not judged
+	// syncFaultOnly: the device accepts every write and fails every Sync; judged
+	// on the device content instead of its synced part
+	syncFaultOnly bool
 }
 
 type c06world struct {
@@ -136,7 +141,18 @@ func runC06(c *Ctx) {
 			if c.F.Chance(2) {
 				lf.sink.FailFrom = 1 + c.F.Draw(3)
 			} else {
-				lf.sink.SyncPlan = []error{fmt.Errorf("injected sync error"), fmt.Errorf("injected sync error"), fmt.Errorf("injected sync error")}
+				// a device that takes every byte but cannot be synced, like a pipe
+				// or a terminal behind stdout (EINVAL), for good: nothing can be
+				// promised about what survives a power loss, but the entry must
+				// have left zap's buffers for the device when control is lost
+				var se error = fmt.Errorf("injected sync error")
+				if c.F.Chance(2) {
+					se = &os.PathError{Op: "sync", Path: "/dev/stdout", Err: syscall.EINVAL}
+				}
+				for i := 0; i < 64; i++ {
+					lf.sink.SyncPlan = append(lf.sink.SyncPlan, se)
+				}
+				lf.syncFaultOnly = true
 			}
 		}
 		w.leaves = append(w.leaves, lf)
@@ -485,7 +501,12 @@ func (w *c06world) judgeOne(lf *c06leaf, synced []byte, when string) {
 			c.Faults[k] += v
 			lf.sink.Fired[k] = 0
 		}
-		return
+		if !lf.syncFaultOnly {
+			return
+		}
+		// the device took every write and refused every Sync: judged on what
+		// has reached the device, synced or not
+		synced = lf.sink.Data
 	}
 	needle := []byte(`"msg":"` + w.termMsg)
 	n := bytes.Count(synced, needle)
@@ -500,7 +521,7 @@ func (w *c06world) judgeOne(lf *c06leaf, synced []byte, when string) {
 		c.Fail("C06: control was lost before the entry was written and synced to an accepting sink", "%s: sink %s (threshold %d, buffered=%v): the synced part (%d of %d bytes) holds the terminal entry %d times (the unsynced device content holds it %d times)", when, lf.sink.Name, lf.level, lf.bws != nil, lf.sink.SyncedLen, len(lf.sink.Data), n, all)
 		return
 	}
-	if len(synced) == 0 || synced[len(synced)-1] != '\n' {
+	if !lf.syncFaultOnly && (len(synced) == 0 || synced[len(synced)-1] != '\n') { // (unsynced device content may end in another task's write in progress)
 		c.Fail("C06: the synced part of a sink ends in a torn line", "%s: sink %s", when, lf.sink.Name)
 		return
 	}
